@@ -215,6 +215,7 @@ class Matrix:
         self.machinery = None
         self.samples = []
         self.outcome_hist = {}
+        self.replay_module = None
 
     def add_failure(self, key, job, outcome, msg):
         with self.lock:
@@ -300,6 +301,7 @@ class Matrix:
             ordered += part
             results += pmap(one, part, conc)
         jobs = ordered
+        self.last_jobs = ordered
         if self.machinery:
             raise MachineryError(self.machinery)
         st = self.stats
@@ -359,6 +361,8 @@ class Matrix:
                    'expected': ex['msg'], 'trace': r['trace'].split('\n'), 'sanitizer_report': r['stderr'][:6000] if r['san'] else '',
                    'cases_failing_with_this_key': len(f['cases']), 'schedules_failing_with_this_key': f['schedules'],
                    'how_to_replay': 'python3 %s replay <this file>' % replay_argv0}
+            if getattr(self, 'replay_module', None):
+                obj['replay_module'] = self.replay_module
             self.chk.violation(key, obj, '%s  [case %s, flavour %s, schedule %s; %d case(s), %d schedule(s) fail this way]' % (
                 ex['msg'][:300], json.dumps(job['case'], sort_keys=True), job['flavour'], o['sched'], len(f['cases']), f['schedules']))
 
